@@ -17,6 +17,8 @@ CONSTANTS RawStrict,        \* strict reader compares raw spellings: whitespace 
           BuiltinClashCrashes, \* a [Table-Form] named like a built-in form raises an internal error instead of a configuration error
           LateBuiltinShadowed, \* built-in forms registered AFTER the user's forms (as.buck4) are silently replaced by a user form of that name
           AddRawKey,           \* the already-exists guard of the add route compares the raw key spelling
+          HeaderBlanksKept,    \* '[Pair ]' / '[Table-Form :tf]' are section names of their own that share the look-up entry of
+                               \* '[Pair]' / '[Table-Form:tf]' (the section read last stands in for the other): before F39
           AddMerged            \* several additions of one item are merged (the last wins) before the guard sees them
 
 \* an entry: section kind, the thing it defines, and how its key is spelled relative to the first definition
@@ -44,13 +46,16 @@ Ops == {
   [op |-> "table-vs-late-builtin", sec |-> "Table-Form", thing |-> "form as.buck4", sp |-> "n/a"],
   [op |-> "form-vs-builtin",  sec |-> "Potential-Form", thing |-> "form as.buck", sp |-> "n/a"],
   [op |-> "form-vs-late-builtin", sec |-> "Potential-Form", thing |-> "form as.buck4", sp |-> "n/a"],
-  [op |-> "section-twice",    sec |-> "Pair",           thing |-> "section Pair", sp |-> "same"] }
+  [op |-> "section-twice",    sec |-> "Pair",           thing |-> "section Pair", sp |-> "same"],
+  \* the header of the second section spelled with blanks: next to the brackets, or before the colon of Table-Form:NAME
+  [op |-> "section-header-ws", sec |-> "Pair",          thing |-> "section Pair", sp |-> "ws"],
+  [op |-> "table-header-ws",  sec |-> "Table-Form",     thing |-> "form tf",     sp |-> "header-ws"] }
 
 \* "add": the second definition arrives through --add-item / additional= ; "add2": BOTH definitions do (the file has neither)
 Routes == {"file", "add", "add2"}
 \* an added item is one key: of an existing section, or of a section the addition creates ('Table-Form: tf:xy=...' makes a
 \* whole table form); a section cannot be listed twice that way, nor an existing table form be given a second time
-Addable(o) == o.op \notin {"section-twice", "table-same"}
+Addable(o) == o.op \notin {"section-twice", "table-same", "section-header-ws", "table-header-ws"}
 Addable2(o) == Addable(o) /\ o.sec # "Table-Form" /\ o.sp # "n/a"
 
 VARIABLES op, route, stage, outcome    \* outcome: "pending" | "config" | "internal" | "accepted"
@@ -64,6 +69,7 @@ Catches(st, o) ==
          \* configparser strict mode: same section name, or same option name in a section (after optionxform)
          /\ route = "file"
          /\ \/ o.op = "section-twice"
+            \/ o.op = "section-header-ws" /\ ~HeaderBlanksKept                 \* blanks next to the brackets are not part of the name
             \/ o.sp = "same"                                                  \* incl. two identical [Table-Form:tf] headers
             \/ o.sec # "Table-Form" /\ o.sp = "ws" /\ ~RawStrict
     [] st = "add-guard" ->
@@ -71,7 +77,7 @@ Catches(st, o) ==
          \/ route = "add" /\ (o.sp = "same" \/ (o.sp = "ws" /\ ~AddRawKey))
          \/ route = "add2" /\ ~AddMerged /\ (o.sp = "same" \/ (o.sp = "ws" /\ ~AddRawKey))
     [] st = "dup-pairs" -> o.sec = "Pair" /\ o.sp \in {"rev", "revws"}           \* _check_for_duplicate_pairs: either order, stripped
-    [] st = "dup-table-sections" -> o.sec = "Table-Form" /\ o.sp = "ws"       \* [Table-Form:tf] / [Table-Form: tf]: names stripped before comparison
+    [] st = "dup-table-sections" -> o.sec = "Table-Form" /\ (o.sp = "ws" \/ (o.sp = "header-ws" /\ ~HeaderBlanksKept))       \* [Table-Form:tf] / [Table-Form: tf]: names stripped before comparison
     [] st = "registry-tables" -> o.op = "table-vs-builtin"                          \* table forms are built after the built-ins are registered
     [] st = "registry-forms" -> o.op \in {"form-other-arity", "form-vs-builtin"} \/ (o.op = "table-vs-formula" /\ ~FormulaShadows)
     [] st = "registry-late-builtins" -> o.op \in {"table-vs-late-builtin", "form-vs-late-builtin"} /\ ~LateBuiltinShadowed
